@@ -1,4 +1,4 @@
 #!/bin/bash
 # usage: seeded_try.sh <property> <tree-with-mutation-applied> [check args...]   -- runs the property's check against a mutated tree
 P=$1; T=$2; shift 2
-cd /verif && VERIF_REPO=$T ./check $P "$@" 2>&1 | grep -E "^VIOLATION|^  job=|^INCONCLUSIVE|^BROKEN|^ERROR|tier=" | cut -c1-260
+cd /verif && VERIF_BUILD=/verif/build/_alt_$(basename $T) VERIF_REPO=$T ./check $P "$@" 2>&1 | grep -E "^VIOLATION|^  job=|^INCONCLUSIVE|^BROKEN|^ERROR|tier=" | cut -c1-260
